@@ -49,7 +49,13 @@ func (fs *fs) Walk(ctx context.Context, target string, fn gofs.WalkDirFunc) erro
 	return filepath.WalkDir(filepath.Join(fs.root, target), func(path string, dirEntry gofs.DirEntry, walkErr error) (retErr error) {
 		defer func() {
 			if retErr != nil && isNotExist(retErr) {
-				retErr = filepath.SkipDir
+				if dirEntry != nil && !dirEntry.IsDir() {
+					// a vanished non-directory: skip only this entry (SkipDir would
+					// skip the rest of the containing directory)
+					retErr = nil
+				} else {
+					retErr = filepath.SkipDir
+				}
 			}
 		}()
 
